@@ -123,11 +123,52 @@ theorem parseWith_lib (tol : Tol) (li lo : List Int) (b : List (Int × Int)) (da
             · cases h; rfl
             · simp [pure, Except.pure] at h
 
+theorem manchAll_lib (tol : Tol) (m s : Int) :
+    ∀ (l : List Int) (e : PyErr), manchAll tol m s l = .error e → e.isLibrary = true := by
+  intro l
+  induction l with
+  | nil => intro e h; simp [manchAll] at h
+  | cons x l ih =>
+    intro e h
+    unfold manchAll at h
+    split at h
+    · cases h; rfl
+    · cases hr : manchAll tol m s l with
+      | error e' => rw [hr] at h; simp [Except.map] at h; subst h; exact ih _ hr
+      | ok v => rw [hr] at h; simp [Except.map] at h
+
+/-- **parsing on the Manchester path never leaks**: whatever the tables, tolerance and input -/
+theorem parseWithM_lib (tol : Tol) (li lo : List Int) (b : List (Int × Int)) (data : List Int) (e : PyErr)
+    (h : parseWithM tol li lo b data = .error e) : e.isLibrary = true := by
+  unfold parseWithM at h
+  simp only [bind, Except.bind] at h
+  split at h
+  · rename_i e' he; cases h; exact periodCheck_lib _ _ _ _ he
+  · split at h
+    · rename_i e' he; cases h; exact leadInLoop_lib _ _ _ _ _ _ he
+    · split at h
+      · rename_i e' he; cases h; exact leadOutLoop_lib _ _ _ _ _ _ _ _ _ _ he
+      · split at h
+        · rename_i e' he; cases h; exact manchAll_lib _ _ _ _ _ he
+        · split at h
+          · rename_i e' he; cases h; exact pairsToBits_lib _ _ _ he
+          · split at h
+            · cases h; rfl
+            · simp [pure, Except.pure] at h
+
+/-- the constructor on either path -/
+theorem parse_lib (t : Tables) (tol : Tol) (data : List Int) (e : PyErr) (h : parse t tol data = .error e) :
+    e.isLibrary = true := by
+  unfold parse at h
+  split at h
+  · exact parseWithM_lib _ _ _ _ _ _ h
+  · exact parseWith_lib _ _ _ _ _ _ h
+
 theorem decodeFull_lib (t : Tables) (inst : Inst) (data : List Int) (pre : List Effect) (e : PyErr)
     (h : (decodeFull t inst data pre).result = .error e) : e.isLibrary = true := by
   unfold decodeFull at h
   split at h
-  · rename_i e' he; simp at h; subst h; exact parseWith_lib _ _ _ _ _ _ he
+  · rename_i e' he; simp at h; subst h; exact parse_lib _ _ _ _ he
   · rename_i p hp
     by_cases h1 : p.bits.length > t.bitCount
     · rw [if_pos h1] at h; simp at h; subst h; rfl
